@@ -2,12 +2,16 @@
 Case generator + property metadata.  Case layout (see coq/C05/Run.v):
   [cfg,kind] [p] [a] [b|d] [r,num_bits,N] params scalars bases_flat
 Points are affine coordinates (SW: x, y, infinity flag; TE: x, y); the result is one affine point.
+Pairing target groups (kind 2 = Fp12, 3 = Fp4): [cfg,kind] [p] [nr2] [nr6 c0,c1] [r,num_bits,N] params scalars bases_flat,
+elements are their 12 (4) base-prime-field coordinates.
 Python curve arithmetic below only *builds inputs* (on-curve points, negatives, subgroup members);
 expected outputs always come from the Coq model."""
 import sys, os, json
 sys.path.insert(0, '/verif/lib')
 sys.path.insert(0, '/verif/props/C03')          # toycurves.py (frozen helper of package C03)
 import toycurves as tc
+sys.path.insert(0, '/verif/props/C10')          # tower.py: plain tower-field arithmetic (frozen helper of package C10)
+from tower import target_field, fpow
 
 OPS = {'params': 1, 'msm': 2, 'msm_unchecked': 3, 'msm_bigint': 4, 'msm_signed': 5, 'msm_plain': 6,
        'msm_chunks': 7, 'make_digits': 8, 'chunked': 9, 'hashmap': 10,
@@ -350,6 +354,7 @@ def gen(rng, tier):
                     yield case(g, 'hashmap', [size], ks, bs) + ('%s/hashmap/n%d/keys%s/%s' % (
                         'toy' if g.toy else g.name, n, sizeclass(distinct, size), cl),)
     yield from gen_long(rng, cfgs, pts_sub, thorough)
+    yield from gen_gt(rng, thorough)
 
 
 def gen_long(rng, cfgs, pts_sub, thorough):
@@ -370,6 +375,177 @@ def gen_long(rng, cfgs, pts_sub, thorough):
             yield case(g, 'msm_chunks_long', [n, more] + idxs, ks, sub) + ('%s/msm_chunks_long/n=2^20+%d/bases+%d' % ('toy' if g.toy else g.name, extra, more),)
             if thorough:
                 yield case(g, 'msm_chunks_long', [n, 0] + idxs, ks, sub) + ('%s/msm_chunks_long/n=2^20+%d/bases+0' % ('toy' if g.toy else g.name, extra),)
+
+
+# ---------------- pairing target groups (PairingOutput<P>: zero = 1, + = product in the target field) ----------------
+class GtCfg:
+    """gt.json: tower constants and g = e(G1 generator, G2 generator) as printed by the harness op `params`
+    (regenerate: echo '1:params <cid hex>,2 0 0 0 0 _ _ _' | build/target/debug/c05, fields 8 and 6); every run compares
+    them with the real constants again through the `params` case."""
+    toy = False
+
+    def __init__(self, cid, e):
+        self.cid, self.name, self.p, self.tower = cid, e['name'], e['p'], e['tower']
+        self.kind = 2 if self.tower == 12 else 3
+        self.nr2, self.nr6 = e['nr2'], list(e['nr6'])
+        self.r, self.nb, self.N = e['r'], e['nb'], e['N']
+        self.F = target_field(self.p, self.tower, self.nr2, self.nr6)
+        self.g = self.F.el(e['g'])
+        self.ident = self.F.one()
+
+    def head(self):
+        return [[self.cid, self.kind], [self.p], [self.nr2], self.nr6, [self.r, self.nb, self.N]]
+
+    def flat(self, els):
+        out = []
+        for x in els:
+            out += self.F.co(x)
+        return out
+
+    def inv(self, x):
+        """inverse on the cyclotomic subgroup = conjugation over the quadratic top level"""
+        return (x[0], self.F.B.neg(x[1]))
+
+    def pool(self, rng):
+        """non-identity elements of the order-r subgroup: g, g^2, .. g^9, g^-1 = g^(r-1), g^-2, two large powers and their inverses"""
+        F = self.F
+        small = [self.g]
+        for _ in range(8):
+            small.append(F.mul(small[-1], self.g))
+        big = [fpow(F, self.g, rng.randrange(1 << (self.nb - 2), self.r)) for _ in range(2)]
+        assert F.mul(self.g, self.inv(self.g)) == F.one() and fpow(F, self.g, self.r) == F.one()
+        return small + [self.inv(small[0]), self.inv(small[1])] + big + [self.inv(b) for b in big]
+
+
+def gt_configs():
+    d = json.load(open('/verif/props/C05/gt.json'))
+    return [GtCfg(int(k), d[k]) for k in sorted(d, key=int)]
+
+
+def gt_bases(rng, G, pool, n, mode=None):
+    """identity (= 1) at the first / middle / last position (an identity base must still consume ITS scalar), several
+    identities, all identity, repeated bases (bucket doubling), inverse pairs (buckets cancel to 1), random"""
+    one = G.ident
+    if n == 0:
+        return [], 'empty'
+    modes = ['ident_first', 'ident_middle', 'ident_last', 'ident_multi', 'all_identity', 'all_equal', 'inv_pairs',
+             'two_distinct', 'random', 'random']
+    mode = mode or rng.choice(modes)
+    out = [rng.choice(pool) for _ in range(n)]
+    if mode == 'ident_first':
+        out[0] = one
+    elif mode == 'ident_middle':
+        out[n // 2 if n > 2 else 0] = one
+    elif mode == 'ident_last':
+        out[-1] = one
+    elif mode == 'ident_multi':
+        for _ in range(2 + n // 8):
+            out[rng.randrange(n)] = one
+        out[rng.randrange(max(1, n - 1))] = one            # one of them not last
+    elif mode == 'all_identity':
+        out = [one] * n
+    elif mode == 'all_equal':
+        out = [rng.choice(pool)] * n
+    elif mode == 'inv_pairs':
+        out = []
+        while len(out) < n:
+            P = rng.choice(pool)
+            out += [P, G.inv(P)]
+        out = out[:n]
+    elif mode == 'two_distinct':
+        few = [rng.choice(pool) for _ in range(2)]
+        out = [rng.choice(few) for _ in range(n)]
+    return out, mode
+
+
+def gt_scalars(rng, G, n, bigint, full):
+    """small scalars mostly; `full`: the classes of the curve groups (r-1, 2^j, runs of ones, >= r for big integers, random).
+    Distinct non-zero values whenever possible, so that a base paired with a neighbour's scalar changes the product."""
+    if full:
+        return scalars(rng, G, n, bigint)
+    k = rng.randrange(4)
+    if k == 0:
+        return [rng.choice([0, 1, G.r - 1]) for _ in range(n)], 'special_mix'
+    if k == 1:
+        return [rng.randrange(8) for _ in range(n)], 'tiny'
+    ks = rng.sample(range(1, 64 + n), n)
+    return ks, 'small_distinct'
+
+
+def gen_gt(rng, thorough):
+    ALL = MSM_OPS_FIELD + MSM_OPS_BIG
+    for G in gt_configs():
+        yield ('params', G.head() + [[], [], G.F.co(G.g)], 'params/gt')
+        pool = G.pool(rng)
+        # ark_bls12_381 runs the same generic code as the ark_test_curves engine: a thin slice in the quick tier
+        thin = (G.cid == 21) and not thorough
+        reps = 6 if thorough else (1 if thin else 2)
+        lens = [0, 1, 2, 3, 5, 31, 32, 33] + ([100, 257] if thorough else [])
+        if thin:
+            lens = [0, 2, 5]
+        tag = G.name
+
+        def mk(op, n, mode=None, nb=None, full=None):
+            big = op in MSM_OPS_BIG
+            if full is None:
+                full = rng.randrange(4) == 0
+            ks, ck = gt_scalars(rng, G, n, big, full)
+            bs, cb = gt_bases(rng, G, pool, n if nb is None else nb, mode)
+            return ks, bs, ck, cb
+
+        # ---- every entry point x lengths 0, 1, 2, 3, 5, 33 (window rule: 3 below 32, 6 at 33) ----
+        for n in lens:
+            for op in ALL:
+                for _ in range(reps * (2 if n <= 5 else 1)):
+                    ks, bs, ck, cb = mk(op, n)
+                    yield case(G, op, [], ks, bs) + ('%s/len%d/%s/%s/%s' % (tag, n, op, ck, cb),)
+        # ---- the identity base at every position class, every entry point, distinct non-zero scalars ----
+        for mode in ('ident_first', 'ident_middle', 'ident_last', 'ident_multi'):
+            for n in ([3] if thin else [2, 3, 5]):
+                for op in ALL:
+                    for _ in range(reps):
+                        ks, bs, ck, cb = mk(op, n, mode, full=False)
+                        ks = rng.sample(range(1, 200), n) if rng.randrange(3) else [rng.randrange(1, G.r) for _ in range(n)]
+                        yield case(G, op, [], ks, bs) + ('%s/%s/n%d/%s' % (tag, mode, n, op),)
+        # ---- full-size scalars: r-1 (g^(r-1) = g^-1), all ones, >= r for the big-integer entry points ----
+        if not thin:
+            for op in ALL:
+                big = op in MSM_OPS_BIG
+                top = (1 << G.nb) if big else G.r
+                for ks, cl in (([G.r - 1, 1], 'r-1'), ([top - 1, G.r - 1, 2], 'top'),
+                               ([rng.randrange(top) for _ in range(3)], 'random_full')):
+                    bs = [pool[0]] + [rng.choice(pool) for _ in ks[1:]]
+                    yield case(G, op, [], ks, bs) + ('%s/fullsize/%s/%s' % (tag, cl, op),)
+        # ---- mismatched lengths ----
+        pairs = [(1, 2), (2, 1), (0, 2), (2, 0), (3, 5), (5, 3)] + ([(33, 32), (32, 33)] if thorough else [])
+        if thin:
+            pairs = [(2, 3), (3, 2)]
+        for (nbases, nscal) in pairs:
+            for op in ALL:
+                ks, bs, ck, cb = mk(op, nscal, nb=nbases, full=False)
+                yield case(G, op, [], ks, bs) + ('%s/mismatch_%d_%d/%s' % (tag, nbases, nscal, op),)
+        # ---- accumulators ----
+        for n in ([3] if thin else [0, 1, 2, 3, 5] + ([33] if thorough else [])):
+            sizes = sorted(set(s for s in [0, 1, 2, n - 1, n, n + 1] if s >= 0))
+            if thin:
+                sizes = [1, 2]
+            for size in sizes:
+                ks, bs, ck, cb = mk('msm_bigint', n)
+                yield case(G, 'chunked', [size, rng.randrange(2)], ks, bs) + ('%s/chunked/n%d/size%s/%s' % (tag, n, sizeclass(n, size), cb),)
+                keys = [rng.choice(pool + [G.ident]) for _ in range(rng.choice([1, 2, 3]))]
+                bs = [rng.choice(keys) for _ in range(n)]
+                ks, ck = gt_scalars(rng, G, n, False, rng.randrange(3) == 0)
+                cl = 'merge'
+                if n >= 2 and rng.randrange(2) == 0:
+                    i, j = rng.sample(range(n), 2)
+                    bs[j] = bs[i]
+                    if rng.randrange(2):
+                        ks[j] = (G.r - ks[i]) % G.r
+                        cl = 'cancel'
+                    else:
+                        ks[i] = ks[j] = G.r - 1
+                        cl = 'wrap'
+                yield case(G, 'hashmap', [size], ks, bs) + ('%s/hashmap/n%d/keys%s/%s' % (tag, n, sizeclass(len(set(bs)), size), cl),)
 
 
 def sizeclass(n, size):
@@ -397,6 +573,10 @@ def xcheck_ok(case):
         return True
     if case['op'] == 'msm_chunks_long':
         return False
+    if a[0][0] >= 20:
+        # pairing target groups: in the kernel (stdlib Z) only Fp4 cases with at most two small scalars (~1 s each; one
+        # full-size exponent over Fp12 takes minutes there)
+        return case['op'] != 'params' and a[0][1] == 3 and len(a[6]) <= 2 and len(a[7]) <= 8 and all(k < 256 for k in a[6])
     return a[0][0] < 10 and len(a[6]) <= 12 and len(a[7]) <= 36
 
 
